@@ -454,6 +454,37 @@ def check_coupled_array(prog, rep):
                                   (key_text(st), x, x), st.lineno)
 
 
+def check_rank_change(prog, rep):
+    """a slice assignment into X.legs changes the rank: the block-index array must be rebuilt"""
+    m = prog.module(NPC)
+    for q, f in m.functions.items():
+        for st in stmts_of(f):
+            if not isinstance(st, ast.Assign):
+                continue
+            t = st.targets[0]
+            if isinstance(t, ast.Subscript) and isinstance(t.slice, ast.Slice) and isinstance(
+                    t.value, ast.Attribute) and t.value.attr == 'legs' and isinstance(
+                        t.value.value, ast.Name):
+                x = t.value.value.id
+                rep.instance('COUPLED-rank', {'function': q, 'store': key_text(st)})
+                cfg = CFG(f)
+
+                def sets_qdata(n, x=x):
+                    s = n.stmt
+                    if s is None or isinstance(s, (ast.If, ast.For, ast.While)):
+                        return False
+                    for tt in assigned_targets(s):
+                        if _attr_of(tt, '_qdata')[0] == x and not _attr_of(tt, '_qdata')[1]:
+                            return True
+                    return False
+                if cfg.exit_reachable_avoiding(st, sets_qdata):
+                    rep.violation('COUPLED-rank', m, q, 'rank-changed-qdata-kept:' + x,
+                                  '`%s` replaces one leg of `%s` by several (the rank changes) but '
+                                  'on some path `%s._qdata` keeps its old number of columns: the '
+                                  'result fails its own sanity check (_qdata shape wrong)' %
+                                  (key_text(st), x, x), st.lineno)
+
+
 def _same_len_known(f, st):
     """table of leg replacements that keep ind_len (reason: same slices / same index set)"""
     t = key_text(st)
@@ -480,6 +511,7 @@ def run(prog, rep, tier):
     check_flag_q(prog, rep)
     check_flag_l(prog, rep)
     check_coupled_array(prog, rep)
+    check_rank_change(prog, rep)
     n_ob, n_dis = check_charge_c02(prog, rep)
     rep.floor('FLAG-Q-reset', 25)
     rep.floor('FLAG-Q-true-claim', 12)
